@@ -203,6 +203,16 @@ MISSED = {
     "C17-17": "flag variants next to -o=shell (-r, --unwrapScalar, -r=false, -N, -I4, -M)",
     "C18-17": "family string-evaluator-history: one StringEvaluator serves a sequence of evaluations",
     "C19-17": "base64 inputs whose last group is incomplete, with a line break (injectBase64)",
+    "C02-18": "law `created`: a container an assignment creates on the fly is an ordinary container for `+=`, `*=`, `-=`, `|=` and reads later in the same expression (also against the two-invocation run)",
+    "C03-18": "family `neutralplus`: del on a container that `+` produced by taking over one operand (null / empty / missing on the other side, map + map with shared keys), four ways of looking at it",
+    "C07-18": "family `foot`: comments owned by single elements (head, line, foot) next to 15 spellings of adding elements; ownership rule for created nodes in the tree family",
+    "C08-18": "family `records`: deep comparisons (array subtraction, contains, unique, group_by ...) of records written in key orders of their own; the document must come out untouched and the subtraction's value is modelled",
+    "C09-18": "variant `equal-levels-unbracketed`: a right operand of the same level written without brackets (operators of one level group to the right) means the same as the bracketed spelling",
+    "C11-18": "family `anchor-graph`: anchor names defined again, self-containing definitions, several aliases through one explode under a lowered stack limit; reachability law for must-fail / must-not-fail",
+    "C14-18": "family `toml:headers`: table trees with headers in four orders (a super-table after its sub-tables, empty headers of existing tables last or in the middle)",
+    "C15-18": "family `multikey`: sort_by with 1-5 keys where a third or later key decides, eight spellings of the key list, the one-key-at-a-time law",
+    "C16-18": "string keys that read as numbers / booleans / null (`\"8080\"`, `\"007\"`, `\"0x1F\"`): key and path steps compared with their type",
+    "C19-18": "family `injectTOML`: a malformed line at six positions of a TOML file among several files",
 }
 REGRESSED = {
     "C11-1": "caught when delivered (4 violation lines), lost when the generator grew (0 of 40 k cases), caught again after reversed slices were made denser and the quick tier raised to 100 k cases",
